@@ -149,6 +149,13 @@ func (il *IPRequestLimiter) dump() {
 	}
 }
 
+// withoutZone removes the zone of a link-local IPv6 address ("fe80::1%eth0", as in the RemoteAddr
+// of a client on the local link): the zone names the link, and net.ParseIP does not accept it.
+func withoutZone(ip string) string {
+	addr, _, _ := strings.Cut(ip, "%")
+	return addr
+}
+
 func ipFromRequest(req *http.Request) (string, error) {
 	forwardIP := req.Header.Get("X-Forwarded-For")
 	if forwardIP != "" {
@@ -156,7 +163,7 @@ func ipFromRequest(req *http.Request) (string, error) {
 		if client, _, isList := strings.Cut(forwardIP, ","); isList && strings.TrimSpace(client) != "" {
 			forwardIP = client
 		}
-		if parsedIP := net.ParseIP(strings.TrimSpace(forwardIP)); parsedIP != nil {
+		if parsedIP := net.ParseIP(withoutZone(strings.TrimSpace(forwardIP))); parsedIP != nil {
 			return parsedIP.String(), nil // same key for every spelling of one address, as for RemoteAddr below
 		}
 		return forwardIP, nil
@@ -165,7 +172,7 @@ func ipFromRequest(req *http.Request) (string, error) {
 	if err != nil {
 		return "", err
 	}
-	userIP := net.ParseIP(ip)
+	userIP := net.ParseIP(withoutZone(ip))
 	if userIP == nil {
 		return "", fmt.Errorf("no IP found")
 	}
